@@ -44,6 +44,17 @@ class Fact:
 
 
 def _atom(test, pol):
+    if isinstance(test, ast.BoolOp):
+        # order-insensitive rendering of and/or over canonical sub-atoms
+        parts = []
+        for v in test.values:
+            fs = implied(v, True)
+            if len(fs) == 1:
+                parts.append(('' if fs[0].pol else 'not ') + fs[0].text)
+            else:
+                parts.append('(' + ' and '.join(sorted(('' if f.pol else 'not ') + f.text for f in fs)) + ')')
+        j = ' and ' if isinstance(test.op, ast.And) else ' or '
+        return Fact(j.join(sorted(parts)), pol, test)
     if isinstance(test, ast.Compare) and len(test.ops) == 1:
         op = test.ops[0]
         a, b = test.left, test.comparators[0]
@@ -88,6 +99,14 @@ def implied(test, pol):
             return out
         return [_atom(test, pol)]
     return [_atom(test, pol)]
+
+
+def canon_test(node):
+    """Canonical text of a boolean expression (comparison operands ordered, and/or sorted)."""
+    fs = implied(node, True)
+    if len(fs) == 1:
+        return ('' if fs[0].pol else 'not ') + fs[0].text
+    return ' and '.join(sorted(('' if f.pol else 'not ') + f.text for f in fs))
 
 
 def fact_key(expr_text, pol=True):
